@@ -159,25 +159,21 @@ func (r *Resolver) AutoTA() {
 
 	tombstones, err := readTombstones(tombstonePath)
 	if err != nil {
-		// Distinguish "transient inability to read" from "actual
-		// corruption". A sharing violation on Windows (concurrent
-		// writer renaming over the file) or a permission hiccup is
-		// not the same as a malformed gob payload. We only fail
-		// closed when we successfully read bytes that don't decode
-		// — readTombstones surfaces that as errCorruptTombstones.
-		// Other open errors leave us with an empty in-memory map
-		// and the next AutoTA tick (or a process restart in the
-		// non-transient case) can re-load.
-		if errors.Is(err, errCorruptTombstones) {
-			zlog.Error("Trust anchor tombstones file corrupted — clearing in-memory trust set and aborting refresh", "path", tombstonePath, "error", err.Error())
-			r.Lock()
-			r.rootKeys = nil
-			r.Unlock()
-			refreshResult = taRefreshPersistenceError
-			return
-		}
-		zlog.Warn("Trust anchor tombstones file unreadable — proceeding with empty in-memory tombstones", "path", tombstonePath, "error", err.Error())
-		tombstones = make(Tombstones)
+		// Any failure to read an existing tombstone store — a corrupt gob
+		// payload, but equally a permission, descriptor or I/O error on
+		// open — means the revocation record cannot be consulted. Carrying
+		// on with an empty in-memory map would let a revoked key that is
+		// still listed in the configuration be merged back and published,
+		// and the write at the end of this run would then replace the
+		// unreadable store with that empty map, losing the revocation for
+		// good. Fail closed and leave both files untouched; the next tick
+		// (or a restart, once the fault is cleared) re-loads them.
+		zlog.Error("Trust anchor tombstones file unreadable — clearing in-memory trust set and aborting refresh", "path", tombstonePath, "corrupt", errors.Is(err, errCorruptTombstones), "error", err.Error())
+		r.Lock()
+		r.rootKeys = nil
+		r.Unlock()
+		refreshResult = taRefreshPersistenceError
+		return
 	}
 
 	// Copy legacy Revoked/Removed entries into the material-keyed
